@@ -17,6 +17,11 @@ logger = logging.getLogger('IsoQuant')
 
 
 def merge_file_list(fname, label, chr_ids):
+    # per-chromosome files are written as <dir>/<label>_<chr_id><suffix> for the final file <dir>/<label><suffix>;
+    # replace the label at the start of the file name, not its last occurrence (the suffix may contain the label again)
+    dir_name, base_name = os.path.split(fname)
+    if base_name.startswith(label):
+        return [os.path.join(dir_name, f"{label}_{chr_id}{base_name[len(label):]}") for chr_id in chr_ids]
     return [rreplace(fname, label, f"{label}_{chr_id}") for chr_id in chr_ids]
 
 
